@@ -32,6 +32,9 @@ def check_tree(C, drv, root, tag, exhaustive_idx=True, recipe=None):
         if common.dec_ints(wouts[1]) != real_post:
             C.issue('translated-post-order-mismatch', 'correspondence', dict(how='tree', tree=enc), model=wouts[1][:120], real=real_post)
         C.extra['translated_walks_run'] = C.extra.get('translated_walks_run', 0) + 2
+        po = drv.ask(f'w.props {enc}')
+        if po != ' '.join(str(v) for v in real_props):
+            C.issue('translated-properties-mismatch', 'correspondence', dict(how='tree', tree=enc), model=po, real=real_props)
         fouts = drv.ask_many([f'w.find {enc} {p}' for p in ps])
         for p, o, r in zip(ps, fouts, real_find):
             if o != r:
